@@ -80,6 +80,11 @@ def c01_shapes(tier):
         # grouped flags behind one dash
     for words, items in ((['-fg'], ['f=1', 'g=1']), (['-gf'], ['f=1', 'g=1']), (['-fg', '-n', S(0)], ['f=1', 'g=1', 'n=#0']), (['-gfn', S(0)], ['f=1', 'g=1', 'n=#0'])):
         shapes.append(('hx_pa', [0, 0], 'c01/' + ' '.join(w.replace('\x01', '@') for w in words), {'pa_tmpl': tmpl('ok', items + ['s=_', 'o=-', 'v=_'], ['d2'], words)}))
+    # a value given as separate word, later in the line flags grouped behind one dash / a glued value at the end of a group
+    for words, slots, items in ((['-n', S(0), '-fg'], ['d2'], ['n=#0', 'f=1', 'g=1']), (['--number', S(0), '-gf'], ['d2'], ['n=#0', 'f=1', 'g=1']), (['-s', S(0), '-f', '-gn' + S(1)], ['s2', 'd2'], ['s=$0', 'f=1', 'g=1', 'n=#1']),
+                                (['--name', S(0), '-fgn', S(1)], ['s2', 'd2'], ['s=$0', 'f=1', 'g=1', 'n=#1']), (['-v', S(0), '-n', S(1), '-fg'], ['d2', 'd2'], ['v=#0', 'n=#1', 'f=1', 'g=1']),
+                                (['-n', S(0), '-s', S(1), '-gfo' + S(2)], ['d2', 's2', 'd2'], ['n=#0', 's=$1', 'g=1', 'f=1', 'o=#2'])):
+        shapes.append(('hx_pa', [0, 0], lab('c01/value then group', words), {'pa_tmpl': tmpl('ok', items, slots, words)}))
     # values starting with a dash: only the glued and the '=' spellings are unambiguous
     for words, slots, items in ((['-n' + S(0)], ['i3'], ['n=#0']), (['--number=' + S(0)], ['i3'], ['n=#0']), (['--num=' + S(0)], ['i2'], ['n=#0']), (['-o' + S(0)], ['i3'], ['o=#0']), (['-fn' + S(0)], ['i2'], ['f=1', 'n=#0']),
                                 (['-s' + S(0)], ['i3'], ['s=$0']), (['--name=' + S(0), '-g'], ['i3'], ['s=$0', 'g=1']), (['-v' + S(0) + ',' + S(1)], ['i2', 'd2'], ['v=#0,#1'])):
@@ -162,6 +167,13 @@ def rules():
     bad = [(['-a'], [], []), (['-a', '-b', '-c'], [], []), (['-b', '-a', '-c'], [], []), (['-b', '-a'], [], []), (['-b', '-c'], [], []), (['-a', '-b'], [], []), (['-x', '-c'], [], []), (['-x', '-a'], [], []),
            (['-x', '-a', '-c', '-b'], [], []), (['--extra', '-c', '-a', '-b'], [], []), (['-a', '-x', '-b', '-c'], [], []), (['-x', '-c', '-a'], [], []), (['-b', '-x', '-a', '-c'], [], [])]
     fam.append((9, ok, bad))
+    # cfg 12: differ(x;y;z): every pair of used arguments must differ, whichever of them are used and in whichever order
+    RA, RB, RC = 'r2:10:39', 'r2:40:69', 'r2:70:99'
+    ok = [(['-x', S(0), '-y', S(1), '-z', S(2)], [RA, RB, RC], ['n=#0', 'm=#1', 'l=#2']), (['-z', S(2), '-x', S(0)], [RA, RB, RC], ['n=#0', 'l=#2']), (['-y', S(1), '-z', S(2), '-f'], [RA, RB, RC], ['m=#1', 'l=#2', 'f=1']),
+          (['-y', S(0)], ['d2'], ['m=#0']), (['-f'], [], ['f=1'])]
+    bad = [(['-x', S(0), '-y', S(0)], ['d2'], []), (['-x', S(0), '-z', S(0)], ['d2'], []), (['-y', S(0), '-z', S(0)], ['d2'], []), (['-z', S(0), '-y', S(0), '-f'], ['d1'], []),
+           (['-x', S(0), '-y', S(1), '-z', S(0)], ['d2', 'd1'], []), (['-x', S(1), '-y', S(0), '-z', S(0)], ['d2', 'd1'], []), (['-z', S(0), '-x', S(0), '-y', S(1)], ['d2', 'd1'], [])]
+    fam.append((12, ok, bad))
     # cfg 4: one_of(a;b)
     ok = [(['-a'], [], ['a=1']), (['-b'], [], ['b=1']), (['-n', S(0), '-b'], ['d2'], ['b=1', 'n=#0']), (['-a', '--number=' + S(0)], ['d2'], ['a=1', 'n=#0'])]
     bad = [([], [], []), (['-n', S(0)], ['d2'], []), (['-a', '-b'], [], []), (['-b', '-n', S(0), '-a'], ['d2'], [])]
@@ -181,6 +193,10 @@ def c02_shapes(tier):
         shapes.append(('hx_pa', [0, 0], lab('c02/cfg0', words), {'pa_tmpl': tmpl('throw', [], slots, words)}))
     for words, slots in ((['-l', S(0), '-s', S(1)], ['d2', 's2']), (['-s', S(0), '-l', S(1), S(2)], ['s2', 'd1', 'd1']), (['-f'], []), (['-n', S(0)], ['d2'])):
         shapes.append(('hx_pa', [10, 0], lab('c02/cfg10', words), {'pa_tmpl': tmpl('throw', [], slots, words)}))
+    # tuple destination: cardinality is exactly the number of elements (checked at the end of the evaluation)
+    for words, slots in ((['-t', S(0)], ['d2']), (['-t', S(0) + ',' + S(1)], ['d1', 'd2']), (['--tuple=' + S(0) + ',' + S(1), '-f'], ['d2', 'd2']), (['-t', S(0) + ',' + S(1) + ',' + S(2) + ',' + S(3)], ['d1', 'd1', 'd1', 'd1']),
+                         (['-t', S(0) + ',' + S(1) + ',' + S(2), '-t', S(3)], ['d1', 'd1', 'd1', 'd1'])):
+        shapes.append(('hx_pa', [11, 0], lab('c02/cfg11', words), {'pa_tmpl': tmpl('throw', [], slots, words)}))
     # abbreviations disabled
     for words, slots in ((['--numbe', S(0)], ['d2']), (['--fla'], []), (['--nam=' + S(0)], ['s2'])):
         shapes.append(('hx_pa', [0, 1], lab('c02/noabbr', words), {'pa_tmpl': tmpl('throw', [], slots, words)}))
@@ -201,6 +217,8 @@ def c03_shapes(tier):
                                 (['--list', S(0) + ',' + S(1), '-n', S(2), S(3)], ['d1', 'd2', 'd2', 'd3'], ['v=#0,#1', 'n=#2', 'fv=#3']), (['-s', S(0), '-f', S(1)], ['s2', 'd2'], ['s=$0', 'f=1', 'fv=#1']),
                                 ([S(0), '-l', S(1), S(2)], ['d1', 'd2', 'd2'], ['fv=#0', 'v=#1,#2'])):
         shapes.append(('hx_pa', [10, 0], lab('c03/cfg10', words), {'pa_tmpl': tmpl('ok', items, slots, words)}))
+    shapes.append(('hx_pa', [11, 0], 'c03/cfg11 tuple', {'pa_tmpl': tmpl('ok', ['tp=#0,#1,#2', 'f=1'], ['d1', 'd2', 'd3'], ['-f', '-t', S(0) + ',' + S(1) + ',' + S(2)])}))
+    shapes.append(('hx_pa', [11, 0], 'c03/cfg11 no tuple', {'pa_tmpl': tmpl('ok', ['f=1'], [], ['-f'])}))
     # full keys with abbreviations disabled
     for words, slots, items in ((['--number', S(0), '--flag'], ['d2'], ['n=#0', 'f=1']), (['--name=' + S(0)], ['s3'], ['s=$0'])):
         shapes.append(('hx_pa', [0, 1], lab('c03/noabbr', words), {'pa_tmpl': tmpl('ok', items, slots, words)}))
@@ -226,12 +244,18 @@ def c04_shapes(tier):
             shapes.append(('hx_pa', [cfg, fl], lab('c04/f%d' % fl, pat), {'pa_tmpl': tmpl('safe', [], ['b2'] * n, pat)}))
     for words, slots in ((['-z', S(0)], ['d1']), (['-z', S(0)], ['d2']), (['-z', S(0) + ',' + S(1)], ['r2:08:12', 'r2:60:66']), (['-z', S(0), '-z', S(1)], ['r2:13:16', 'r3:126:130']), (['--vbool=' + S(0) + ',' + S(1)], ['r3:126:129', 'r3:190:194'])):
         shapes.append(('hx_pa', [6, 0], lab('c04/vbool', words), {'pa_tmpl': tmpl('safe', [], slots, words)}))
+    # formatters: the table of per-position formatters is consulted for every value, also far behind the last position that has one
+    for words, opt in ((['-w', 'a,b,c,d,e,f,g,h,' + S(0) + ',j,k,l'], 0), (['-w', 'a,b,c,d,e,f,g,h,i,j,k,l,m,' + S(0) + ',o'], 2), (['-w', S(0) + ',' + S(1), '-t', S(0) + ',' + S(1) + ',' + S(0) + ',' + S(1)], 0), (['-t', S(0), S(1), S(0), S(1)], 32)):
+        shapes.append(('hx_pa', [13, opt << 8], lab('c04/format%d' % opt, words), {'pa_tmpl': tmpl('safe', [], ['b2', 'b1'], words)}))
     for n in ((1, 2, 3) if tier == 'quick' else (1, 2, 3, 4, 5)):
         shapes.append(('hx_split_any', [n, 0], 'c04/split_any%d' % n))
     # sources: environment variable with arbitrary content; program-argument file that cannot be opened
     for l in (1, 2, 3):
         shapes.append(('hx_pa_env', [0, 0], 'c04/env%d' % l, {'pa_tmpl': tmpl('safe', [], ['b%d' % l], [S(0)])}))
     shapes.append(('hx_pa_progfile', [0, 0], 'c04/progfile'))
+    for n in ((1, 8, 255, 256, 300) if tier == 'quick' else (0, 1, 2, 8, 254, 255, 256, 257, 300, 1024)):
+        for sl in (0, 1):
+            shapes.append(('hx_pa_env_name', [n, sl], 'c04/env program name/len%d/slashes%d' % (n, sl)))
     return shapes
 
 
@@ -316,6 +340,34 @@ def c06_shapes(tier):
     shapes.append(('hx_pa', [11, 0], 'c06/tuple long key', {'pa_tmpl': tmpl('ok', ['tp=#0,#1,#2', 'f=1'], ['d2', 'd2', 'd1'], ['--tuple=' + S(0) + ',' + S(1) + ',' + S(2), '-f'])}))
     for words, slots in ((['-t', S(0) + ',' + S(1)], ['d1', 'd2']), (['-t', S(0) + ',' + S(1) + ',' + S(2) + ',' + S(3)], ['d1', 'd1', 'd1', 'd1']), (['-t', S(0) + ',' + S(1) + ',' + S(2)], ['d1', 'a1', 'd1'])):
         shapes.append(('hx_pa', [11, 0], lab('c06/tuple-bad', words), {'pa_tmpl': tmpl('throw', [], slots, words)}))
+    # the other standard containers (cfg 14): values in ascending ranges so that sorted views are known
+    AR = ['r2:10:39', 'r2:40:69', 'r2:70:99']
+    for key, item, prev in (('d', 'dq', '7,'), ('l', 'li', '7,'), ('w', 'fl', ''), ('k', 'sk', ''), ('q', 'qu', ''), ('p', 'pq', ''), ('m', 'ms', ''), ('u', 'us', '')):
+        lk = {'d': 'deque', 'l': 'list', 'w': 'fwd', 'k': 'stack', 'q': 'queue', 'p': 'prio', 'm': 'mset', 'u': 'uset'}[key]
+        cuts = [(['-' + key, S(0) + ',' + S(1) + ',' + S(2)], 0), (['-' + key, S(0), '--' + lk + '=' + S(1) + ',' + S(2)], 0), (['--' + lk, S(0) + ';' + S(1), '-f', '-' + key, S(2)], 16), (['-' + key, S(0), S(1), S(2), '-f'], 32)]
+        if tier == 'quick':
+            cuts = cuts[1:2] + cuts[3:]
+        for words, opt in cuts:
+            shapes.append(('hx_pa', [14, opt << 8], lab('c06/%s%d' % (lk, opt), words), {'pa_tmpl': tmpl('ok', ['%s=%s#0,#1,#2' % (item, prev)] + (['f=1'] if '-f' in words else []), AR, words)}))
+    # values in descending order: sequences keep the given order, sorted containers sort, the sort option sorts
+    for key, item, exp, opt in (('d', 'dq', '7,#2,#1,#0', 0), ('l', 'li', '7,#2,#1,#0', 0), ('q', 'qu', '#2,#1,#0', 0), ('k', 'sk', '#2,#1,#0', 0), ('p', 'pq', '#0,#1,#2', 0), ('m', 'ms', '#0,#1,#2', 0),
+                                ('d', 'dq', '#0,#1,#2', 1 | 2), ('l', 'li', '#0,#1,#2', 1 | 2), ('m', 'ms', '#0,#0,#1', -1), ('u', 'us', '#0,#1', -1)):
+        words = ['-' + key, S(2) + ',' + S(1), '-' + key, S(0)] if opt >= 0 else ['-' + key, S(0) + ',' + S(1) + ',' + S(0)]
+        shapes.append(('hx_pa', [14, max(opt, 0) << 8], lab('c06/order %s%d' % (item, opt), words), {'pa_tmpl': tmpl('ok', ['%s=%s' % (item, exp)], AR, words)}))
+    # checks are applied to every single element
+    shapes.append(('hx_pa', [14, 0], 'c06/element check ok', {'pa_tmpl': tmpl('ok', ['v=#0,#1,#2'], ['r2:10:99', 'r2:10:99', 'r2:10:99'], ['-e', S(0) + ',' + S(1), '-e', S(2)])}))
+    for words, slots in ((['-e', S(0) + ',' + S(1)], ['r2:10:99', 'z2:10:100']), (['-e', S(1) + ',' + S(0)], ['r2:10:99', 'z2:10:100']), (['-e', S(0), '-e', S(0) + ',' + S(1)], ['r2:10:99', 'r3:100:999'])):
+        shapes.append(('hx_pa', [14, 0], lab('c06/element check', words), {'pa_tmpl': tmpl('throw', [], slots, words)}))
+    # formatters (cfg 13): general format on string / vector, per-position formats on vector / tuple; the result must not depend on
+    # how the values are split over lists and words
+    A3 = ['a2', 'a2', 'a2', 'a1']
+    for words, items, opt in ((['-s', S(0)], ['ls=lc$0'], 0), (['--name=' + S(0), '-f'], ['ls=lc$0', 'f=1'], 0),
+                              (['-w', S(0) + ',' + S(1)], ['ws=uc$0,uc$1'], 0), (['-w', S(0), '-w', S(1) + ',' + S(2)], ['ws=uc$0,uc$1,uc$2'], 0), (['-w', S(0), S(1), S(2)], ['ws=uc$0,uc$1,uc$2'], 32),
+                              (['-w', S(0) + ',' + S(1) + ',' + S(2)], ['ws=$0,lc$1,$2'], 2), (['-w', S(0), '-w', S(1), '--words', S(2) + ',' + S(3)], ['ws=$0,lc$1,$2,lc$3'], 2), (['-w', S(0) + ',' + S(1), S(2), S(3)], ['ws=$0,lc$1,$2,lc$3'], 2 | 32),
+                              (['-t', S(0) + ',' + S(1) + ',' + S(2)], ['ts=lc$0,uc$1,Ul$2'], 0), (['-t', S(0) + ',' + S(1), S(2)], ['ts=lc$0,uc$1,Ul$2'], 32), (['-t', S(0), S(1) + ',' + S(2)], ['ts=lc$0,uc$1,Ul$2'], 32),
+                              (['-t', S(0), S(1), S(2), '-f'], ['ts=lc$0,uc$1,Ul$2', 'f=1'], 32),
+                              (['-w', 'a,b,c,d,e,f,g,h,i,' + S(3) + ',k,' + S(0)], ['ws=A,B,C,D,E,F,G,H,I,uc$3,K,uc$0'], 0), (['-w', 'a,B,c,D,e,f,g,h,i,j,k,l,M,' + S(3) + ',o'], ['ws=a,b,c,d,e,f,g,h,i,j,k,l,M,$3,o'], 2)):
+        shapes.append(('hx_pa', [13, opt << 8], lab('c06/format%d' % opt, words), {'pa_tmpl': tmpl('ok', items, A3, words)}))
     # free values routed to the free-value argument
     shapes.append(('hx_pa', [6, 64 << 8], 'c06/free values', {'pa_tmpl': tmpl('ok', ['fv=#0,#1', 'f=1'], ['d2', 'd2'], [S(0), '-f', S(1)])}))
     shapes.append(('hx_pa', [6, (64 | 32) << 8], 'c06/multi-value', {'pa_tmpl': tmpl('ok', ['v=7,#0,#1,#2', 'f=1'], R[:3], ['-v', S(0), S(1), S(2), '-f'])}))
@@ -326,7 +378,7 @@ def c06_shapes(tier):
 def c07_shapes(tier):
     shapes = []
     for nw, wl in ((1, 1), (1, 2), (2, 1), (1, 3), (2, 2)) if tier == 'quick' else ((1, 1), (1, 2), (1, 3), (2, 1), (2, 2), (3, 1), (2, 3), (3, 2)):
-        for q in (0, 1, 2):
+        for q in (0, 1, 2, 3, 4):
             shapes.append(('hx_split', [nw, wl, q], 'c07/split/w%dx%d/q%d' % (nw, wl, q)))
     # the same abstract command lines as C01, delivered through a string and through the environment
     lines = [(['-f', '-n', S(0)], ['d2'], ['f=1', 'n=#0']), (['--name=' + S(0), '-g'], ['s2'], ['s=$0', 'g=1']), (['-v', S(0) + ',' + S(1)], ['d1', 'd2'], ['v=#0,#1']), (['-o', S(0), '--flag'], ['d3'], ['o=#0', 'f=1']),
@@ -338,9 +390,26 @@ def c07_shapes(tier):
             if words[cut - 1] in ('-n', '-o', '-s', '--number', '-v'):
                 continue
             shapes.append(('hx_pa_env', [0, 0], lab('c07/env+argv', words[:cut] + ['\x02'] + words[cut:]), {'pa_tmpl': tmpl('ok', items, slots, words[:cut] + ['\x02'] + words[cut:])}))
+        # ... and through the program-argument file: one line, one word group per line, with/without trailing newline, comment lines
+        shapes.append(('hx_pa_file', [0, 0], lab('c07/file', words), {'pa_tmpl': tmpl('ok', items, slots, words)}))
+        shapes.append(('hx_pa_file', [0, 2], lab('c07/file+comment', words), {'pa_tmpl': tmpl('ok', items, slots, words)}))
+        for cut in range(1, len(words)):
+            if words[cut - 1] in ('-n', '-o', '-s', '--number', '-v'):
+                continue
+            shapes.append(('hx_pa_file', [0, 0], lab('c07/file two lines', words[:cut] + ['\x03'] + words[cut:]), {'pa_tmpl': tmpl('ok', items, slots, words[:cut] + ['\x03'] + words[cut:])}))
+            shapes.append(('hx_pa_file', [0, 0], lab('c07/file+argv', words[:cut] + ['\x02'] + words[cut:]), {'pa_tmpl': tmpl('ok', items, slots, words[:cut] + ['\x02'] + words[cut:])}))
+        shapes.append(('hx_pa_file', [0, 1], lab('c07/file no final newline', words), {'pa_tmpl': tmpl('ok', items, slots, words)}))
     # override: the command line value wins, without a cardinality error
     shapes.append(('hx_pa_env', [0, 0], 'c07/env override', {'pa_tmpl': tmpl('ok', ['n=#1'], ['d2', 'd3'], ['-n', S(0), '\x02', '-n', S(1)])}))
     shapes.append(('hx_pa_env', [0, 0], 'c07/env override string', {'pa_tmpl': tmpl('ok', ['s=$1', 'f=1'], ['s2', 's3'], ['--name=' + S(0), '-f', '\x02', '-s', S(1)])}))
+    shapes.append(('hx_pa_file', [0, 0], 'c07/file override', {'pa_tmpl': tmpl('ok', ['n=#1'], ['d2', 'd3'], ['-n', S(0), '\x02', '-n', S(1)])}))
+    shapes.append(('hx_pa_file', [0, 0], 'c07/file unknown', {'pa_tmpl': tmpl('throw', [], [], ['-z'])}))
+    shapes.append(('hx_pa_file', [0, 0], 'c07/file bad int', {'pa_tmpl': tmpl('throw', [], ['a2'], ['-f', '\x03', '-n', S(0)])}))
+    # values with blanks / hash signs / quotes inside a file line (quoted as for a shell)
+    for val in ('a #b', 'x#y', '#z', 'p q', "it's"):
+        q = '"%s"' % val
+        shapes.append(('hx_pa_file', [0, 0], 'c07/file quoted value [%s]' % val, {'pa_tmpl': tmpl('ok', ['s=' + val, 'f=1'], [], ['-f', '-s', q])}))
+        shapes.append(('hx_pa_string', [0, 0], 'c07/string quoted value [%s]' % val, {'pa_tmpl': tmpl('ok', ['s=' + val, 'f=1'], [], ['-f', '-s', q])}))
     # rule-breaking lines stay rule-breaking whatever the source
     shapes.append(('hx_pa_env', [0, 0], 'c07/env unknown', {'pa_tmpl': tmpl('throw', [], [], ['-z'])}))
     shapes.append(('hx_pa_string', [0, 0], 'c07/string bad int', {'pa_tmpl': tmpl('throw', [], ['a2'], ['-n', S(0)])}))
@@ -368,6 +437,9 @@ def c08_shapes(tier):
         shapes.append(('hx_pa_group', [10, 0], lab('c08/cfg10', words), {'pa_tmpl': tmpl(exp, items, slots, words)}))
     for m in (3, 4, 5):
         shapes.append(('hx_pa_group_dup', [m, 0], 'c08/duplicate key, later-created handler defines it first (%d)' % m))
+    for a in range(3):
+        for b in range(10):
+            shapes.append(('hx_pa_group_keys', [a, b], 'c08/key forms/%d-%d' % (a, b)))
     shapes.append(('hx_pa_group_dup', [0, 0], 'c08/duplicate key short'))
     shapes.append(('hx_pa_group_dup', [1, 0], 'c08/duplicate key long'))
     shapes.append(('hx_pa_group_dup', [2, 0], 'c08/distinct keys'))
@@ -385,6 +457,11 @@ def c18_shapes(tier):
         shapes.append(('hx_usage_long', [display, 0], 'c18/usage-two-line/hidden%d/deprecated%d' % (display & 1, (display >> 1) & 1)))
     for k in range(6):
         shapes.append(('hx_help_arg', [k, 0], 'c18/help-arg/%d' % k))
+    for k in range(6):
+        shapes.append(('hx_help_arg_group', [k, 0], 'c18/help-arg-group/%d' % k))
+    for base in ((60,) if tier == 'quick' else (60, 68, 76, 100, 232)):
+        for variant in range(4):
+            shapes.append(('hx_usage_wrap', [base, variant], 'c18/usage-wrap/len%d/v%d' % (base, variant)))
     return shapes
 
 
